@@ -499,7 +499,10 @@ class Module:
                 self.check_function(b, kind, v, extra)
             except Unanalysable as e:
                 self.unanalysable.append((b.key, str(e)))
-                self.add(['C06', 'C07'], 'G-UNANALYSABLE', b.key, 'unanalysable: %s' % e)
+                extra_props = {'clone': ['C16'], 'clone_from': ['C16'], 'serialize': ['C15'], 'deserialize': ['C15'], 'visit_seq': ['C15'],
+                               'conv': ['C05'], 'new': ['C04'], 'new_uninit': ['C04'], 'unpack': ['C04'], 'from_unpacked': ['C04'],
+                               'from_unpacked_uninit': ['C04']}.get(kind, [])
+                self.add(['C06', 'C07'] + extra_props, 'G-UNANALYSABLE', b.key, 'unanalysable (the generated function does something the ownership analysis has no rule for; fail closed): %s' % e)
             except Violation as e:
                 self.add(FLAG_PROPS.get(e.rule, ['C07']), e.rule, b.key, e.msg)
         self.check_presence(present)
@@ -682,6 +685,17 @@ class Module:
         keep = [c for tr, c in cur.items() if tr in prev]
         plus = [c for tr, c in cur.items() if tr not in prev]
         minus = [c for tr, c in prev.items() if tr not in cur]
+        if self.sidecar is not None and self.sidecar_variant(u) and self.sidecar_variant(v):
+            # with the definition at hand, identity is the datum id: a datum replaced by another
+            # one of the same name, type and place is still removed + added
+            idp = {x['name']: x['id'] for x in self.sidecar_variant(u)[0]}
+            idc = {x['name']: x['id'] for x in self.sidecar_variant(v)[0]}
+            same = {n for n in idp if n in idc and idp[n] == idc[n]}
+            moved = [c for c in keep if c.name not in same]
+            keep = [c for c in keep if c.name in same]
+            plus = plus + moved
+            minus = minus + [prev[c.triple()] for c in moved]
+            stray = [c for c in plus if c.name in same and not any(p.name == c.name for p in moved)]
         # a field kept by name must be kept in place (C03 seen from the generated code)
         prev_by_name = {c.name: c for c in self.F[u]}
         for c in plus:
